@@ -163,6 +163,16 @@ class Ctx:
         self.solver.add(zb)
 
     def decide(self, zb):
+        # a condition already decided on this path (the very same term) keeps its value: no solver call, no new decision
+        kid = zb.get_id()
+        seen = self.__dict__.setdefault('_decided', {})
+        if kid in seen:
+            return seen[kid]
+        d = self._decide(zb)
+        seen[kid] = d
+        return d
+
+    def _decide(self, zb):
         if self.pos < len(self.decisions):
             d = self.decisions[self.pos]
         else:
